@@ -136,6 +136,30 @@ theorem polyExt_one (pt : List Rat) : Poly.eval polyExt.one pt = 1 := by
   show Poly.eval [(1, [])] pt = 1
   rw [eval_cons, eval_nil, monoEval_eq]; simp [pp]
 
+
+theorem monoDeriv_comm (i j : Nat) (m : Mono) :
+    (monoDeriv j m).bind (monoDeriv i) = (monoDeriv i m).bind (monoDeriv j) := by
+  by_cases hij : i = j
+  · subst hij; rfl
+  · unfold monoDeriv
+    simp only [List.getD_eq_getElem?_getD]
+    by_cases hj : m.2[j]?.getD 0 = 0 <;> by_cases hi : m.2[i]?.getD 0 = 0 <;>
+      simp [hj, hi, List.getElem?_set_ne hij, List.getElem?_set_ne (Ne.symm hij)]
+    constructor
+    · ring
+    · exact List.set_comm _ _ (Ne.symm hij)
+
+/-- the cross partial derivatives of the executable polynomial instance commute, as lists of monomials -/
+theorem deriv_comm (i j : Nat) (p : Poly) : Poly.deriv i (Poly.deriv j p) = Poly.deriv j (Poly.deriv i p) := by
+  unfold Poly.deriv
+  rw [List.filterMap_filterMap, List.filterMap_filterMap]
+  congr 1
+  funext m
+  exact monoDeriv_comm i j m
+
+theorem polyOps_dX_comm (i j : Nat) (p : Poly) :
+    polyOps.dX i (polyOps.dX j p) = polyOps.dX j (polyOps.dX i p) := deriv_comm (i + 1) (j + 1) p
+
 end PolyEval
 
 
@@ -815,6 +839,22 @@ theorem evaluate_dispatch (Tmax : Rat) (b : Builtin) (het : Hetero) (args : Eval
   unfold evaluate at h
   cases hb : b.eqType <;> cases args <;> simp_all
 
+/-- the stationary built-ins ignore `Tmax` -/
+theorem evaluate_statio_ignores_Tmax (Tmax Tmax' : Rat) (b : Builtin) (hb : b.eqType = .statio) (het : Hetero)
+    (args : EvalArgs) (nets : Nets F) (p : EqParams) :
+    evaluate ops ext evAt Tmax b het args nets p = evaluate ops ext evAt Tmax' b het args nets p := by
+  cases b with
+  | massConservation k => cases args <;> cases nets <;> rfl
+  | navierStokes uk pk =>
+    cases args with
+    | statio x => cases nets <;> rcases x with _ | ⟨a, _ | ⟨b, _ | ⟨c, r⟩⟩⟩ <;> rfl
+    | ode t => rfl
+    | nonStatio t x => rfl
+  | burgers => simp [Builtin.eqType] at hb
+  | fisherKPP => simp [Builtin.eqType] at hb
+  | ouFPE => simp [Builtin.eqType] at hb
+  | glv a b => simp [Builtin.eqType] at hb
+
 end Evaluate
 
 end Jinns.Equations
@@ -849,6 +889,16 @@ theorem model_holds_ouFPE (Tmax : Rat) (alpha mu sigma : List Rat) (u : Poly) (p
     holdsC02 (.ouFPE Tmax alpha mu sigma u) pt [Poly.eval (ouFPE polyOps polyExt Tmax alpha mu sigma u) pt] 0
       = none := by
   have := ouFPE_eq_doc (ext := polyExt) (polyEvalHom pt) Tmax alpha mu sigma u
+  simp only [holdsC02, documentedAt, documentedFields, Option.map, List.map]
+  rw [← this]
+  exact compareAll_self _ _ _ _
+
+/-- the inherited Fokker–Planck `equation` with ANY polynomial drift and diffusion (symmetric or not) -/
+theorem model_holds_fpe (Tmax : Rat) (drift : List Poly) (diff : List (List Poly)) (u : Poly) (pt : List Rat) :
+    holdsC02 (.fpe Tmax drift diff u) pt
+      [Poly.eval (fpe2D polyOps Tmax (comp drift) (fun i j => comp (diff.getD i []) j) u) pt] 0 = none := by
+  have := fpe2D_eq_doc_of_comm (polyEvalHom pt) Tmax (comp drift) (fun i j => comp (diff.getD i []) j) u
+    (fun a => polyOps_dX_comm 0 1 a)
   simp only [holdsC02, documentedAt, documentedFields, Option.map, List.map]
   rw [← this]
   exact compareAll_self _ _ _ _
@@ -920,7 +970,7 @@ theorem pderiv_comm (i j : ℕ) (a : MvPolynomial ℕ ℚ) :
     intro k
     rw [Derivation.commutator_apply]
     simp only [pderiv_X, Derivation.coe_zero, Pi.zero_apply]
-    by_cases hj : j = k <;> by_cases hi : i = k <;> simp [Pi.single_apply, hj, hi]
+    by_cases hj : j = k <;> by_cases hi : i = k <;> simp [hj, hi]
   have h2 := congrArg (fun D => D a) h
   simp only [Derivation.commutator_apply, Derivation.coe_zero, Pi.zero_apply] at h2
   exact sub_eq_zero.mp h2
@@ -934,7 +984,7 @@ theorem mvLawful : LawfulDeriv mvOps mvExt where
   dX_one := by intro i; simp [mvOps, mvExt]
   dX_coord := by
     intro i j
-    by_cases h : i = j <;> simp [mvOps, mvExt, pderiv_X, Pi.single_apply, h]
+    by_cases h : i = j <;> simp [mvOps, mvExt, pderiv_X, h]
   dX_comm := by intro i j a; exact pderiv_comm _ _ _
 
 theorem mvEvalHom (pt : ℕ → ℚ) : EvalHom mvOps (fun p => MvPolynomial.eval pt p) where
